@@ -35,6 +35,8 @@ ViolSelect(line) ==
      (IF o.sel # e THEN {"select"} ELSE {})
   \cup (IF o.again # e \/ ~o.intact \/ ~o.docOK THEN {"clone-private"} ELSE {})
   \cup (IF o.via # "n/a" /\ o.via # e THEN {"select-via-verify"} ELSE {})
+     \* the skip check refuses exactly the references no statement applies to
+  \cup (IF o.viaSkip # "n/a" /\ ((o.viaSkip = "refused") # (e = "refused")) THEN {"select-via-skip-check"} ELSE {})
 
 Why(line) == IF Mode = "valid" THEN (IF Valid(line.in) THEN "valid" ELSE JoinS(Violated(line.in))) ELSE ExpSel(line.in)
 Violations(line) == IF Mode = "valid" THEN ViolValid(line) ELSE ViolSelect(line)
